@@ -5,7 +5,7 @@ import RpmVerif.Gen.Constants
 
 Mirrors the code as it is in /repo now (after the `fix:` commits): `Lead::parse/write`,
 `IndexHeader::parse/write`, `IndexEntry::parse/write_index`, `Header::parse/parse_header/write`,
-`Header<IndexSignatureTag>::{parse_signature, write_signature, padding_required}`.
+`Header<IndexSignatureTag>::{new_empty, clear, parse_signature, write_signature, padding_required}`.
 Numbers are `Nat`; widths are explicit where the code's width is observable.
 -/
 namespace RpmVerif.Hdr
@@ -154,6 +154,18 @@ def parseHeader (bs : Bytes) : Out (Header × Bytes) := do
 /-- `Header::write` -/
 def writeHeader (h : Header) : Bytes :=
   writeIntro h.nEntries h.dataSize ++ (h.entries.map writeEntry).flatten ++ h.store
+
+/-- `Header::<IndexSignatureTag>::new_empty` (header.rs): `IndexHeader::new(0, 0)`, no entries, empty store -/
+def Header.empty : Header := ⟨0, 0, [], []⟩
+
+/-- `Header::<IndexSignatureTag>::clear`, statement by statement: `index_entries.clear()`,
+`data_section_size = 0`, `num_entries = 0`, `store.clear()` (magic / version are left as they are;
+they are constants of the model) -/
+def Header.clear (h : Header) : Header :=
+  let h := { h with entries := [] }
+  let h := { h with dataSize := 0 }
+  let h := { h with nEntries := 0 }
+  { h with store := [] }
 
 /-- `padding_required` -/
 def sigPad (dl : Nat) : Nat := (8 - dl % 8) % 8
